@@ -124,6 +124,18 @@ Definition strto_spec (t : ity) (b : Z) (s : list Z) : Z * nat :=
            (if m >? imax t then imax t else if neg then (- m) mod 2 ^ bits t else m, n)
   end.
 
+(* the error report of the strtol family (errno in C, the error member of detail::strto_integer in
+   etl): no conversion / the value had to be clamped (ERANGE) / exact *)
+Inductive sclass := SOk | SNoConv | SRange.
+Definition strto_in_range (t : ity) (neg : bool) (m : Z) : bool :=
+  if sgn t then in_ty t (if neg then - m else m) else m <=? imax t.
+Definition strto_class (t : ity) (b : Z) (s : list Z) : sclass :=
+  let '(neg, b', ds, _) := subject b s in
+  match ds with
+  | [] => SNoConv
+  | _ => if strto_in_range t neg (eval b' ds) then SOk else SRange
+  end.
+
 (* sto*: the result of the corresponding strto* when a conversion was performed and the value is
    in range; otherwise an exception is thrown (None: no (value, pos) to compare) *)
 Definition sto_spec (t : ity) (b : Z) (s : list Z) : option (Z * nat) :=
